@@ -516,16 +516,17 @@ Mutate(kind, slot) ==
 (* did (a fresh local name), its other attributes are unconstrained                                 *)
 Precondition ==
   /\ st.phase = "src" /\ muts = <<>> /\ plan.fam = "none" /\ ExoChars # {}
-  /\ plan' = [fam |-> "pre", pre |-> "ann"]
-  /\ inp' \in {i \in Inputs : i.mode = inp.mode /\ i.compiles = inp.compiles /\ i.skip = inp.skip}
-  /\ UNCHANGED <<st, errs, muts, hist>>
+  /\ inp.compiles /\ ~inp.skip /\ inp.nlines = MaxLines     \* (one representative input: the plans, not the
+  /\ plan' = [fam |-> "pre", pre |-> "ann"]                  \*  abstract inputs, are what this part enumerates)
+  /\ UNCHANGED <<inp, st, errs, muts, hist>>
 
 (* MutateExo(place, slot, ch): one exotic character at a token boundary / inside a string literal *)
 (* / inside a comment of a pool text (optionally after Precondition).  It never adds a line; where *)
 (* it is harmless the oracle's view of the text is unchanged, otherwise the text does not compile.  *)
 MutateExo(place, slot, ch) ==
   /\ st.phase = "src" /\ muts = <<>> /\ plan.fam \in {"none", "pre"}
-  /\ inp' \in {i \in Inputs : /\ i.mode = inp.mode /\ i.nlines = inp.nlines
+  /\ inp.nlines = MaxLines /\ ~inp.skip /\ (inp.compiles \/ inp.cline = MaxLines)
+  /\ inp' \in {i \in Inputs : /\ i.mode = inp.mode /\ i.nlines = inp.nlines /\ i.skip = inp.skip
                              /\ (Harmless(place, ch) => i.compiles = inp.compiles /\ i.cline = inp.cline)
                              /\ (~Harmless(place, ch) => ~i.compiles)}
   /\ muts' = << <<ExoKind(place), slot, ch>> >>
@@ -534,7 +535,7 @@ MutateExo(place, slot, ch) ==
 CanonInput(i) == i.compiles /\ ~i.skip /\ i.nlines = MaxLines
 Planned(compiles) ==
   {i \in Inputs : i.mode = inp.mode /\ ~i.skip /\ i.nlines = MaxLines /\ i.compiles = compiles
-                  /\ (~compiles => i.cline > 0)}
+                  /\ (~compiles => i.cline = MaxLines)}   \* blamed: the last line
 Unplanned == st.phase = "src" /\ muts = <<>> /\ plan.fam = "none" /\ CanonInput(inp)
 
 (* PlanCall(c): the text defines the callable c and calls it with every call shape, one call per   *)
@@ -608,12 +609,18 @@ Report ==
 NoReport == st.phase = "end" /\ st.out \in {"Result", "Skipped"} /\ st' = [st EXCEPT !.phase = "reported"]
             /\ UNCHANGED <<inp, errs, muts, hist, plan>>
 
+(* (the guards that do not depend on the bound variable stand outside the quantifiers: TLC then   *)
+(* enumerates the plan sets only in the states in which a plan can be chosen)                      *)
 Next == \/ \E k \in MutKinds, s \in Slots : Mutate(k, s)
         \/ Precondition
-        \/ \E pl \in Places, s \in Slots, ch \in ExoChars : MutateExo(pl, s, ch)
-        \/ \E c \in Callables : PlanCall(c)
-        \/ \E k \in DOMAIN ProvokeTable : Provoke(k)
-        \/ \E p \in ComposePlans : Compose(p)
+        \/ /\ st.phase = "src" /\ muts = <<>>
+           /\ \E pl \in Places, s \in Slots, ch \in ExoChars : MutateExo(pl, s, ch)
+        \/ /\ Unplanned /\ "call" \in Families
+           /\ \E c \in {d \in Callables : FlagIndex(d) \in CallFlagSlice} : PlanCall(c)
+        \/ /\ Unplanned /\ "provoke" \in Families
+           /\ \E k \in DOMAIN ProvokeTable : Provoke(k)
+        \/ /\ Unplanned /\ "compose" \in Families
+           /\ \E p \in ComposePlans : Compose(p)
         \/ Begin \/ Stage \/ SubStage \/ Report \/ NoReport
 Spec == Init /\ [][Next]_vars
 
